@@ -267,8 +267,14 @@ def _worker(args):
             if isinstance(desc, dict) and desc.get(ck):
                 CONTEXT[ck] = desc[ck]
         try:
+            from mc import alphabets as _AB
+            del _AB.DERIVE_ERRORS[:]
             with module_settings(CONTEXT.get('module')):
                 acc = mod.run_shard(desc, tier, seed)
+            for de in _AB.DERIVE_ERRORS[:50]:
+                acc.violation('operation_on_library_object_raises', {'operation': de['prov'], 'kind': de['seg'][0], 'exc': de['exc']},
+                              {'what': '__derive__', 'seg': de['seg']}, observed=de['exc'])
+            del _AB.DERIVE_ERRORS[:]
             for ck in CONTEXT_KEYS:
                 if CONTEXT.get(ck):
                     acc.seen('%s:%s' % (ck, CONTEXT[ck] if ck != 'module' else canon(CONTEXT[ck])))
@@ -336,7 +342,11 @@ def finish(mod, acc, tier, seed, wall, nshards):
                 rc = {k: x for k, x in rc.items() if k not in CONTEXT_KEYS}
             try:
                 with module_settings(CONTEXT.get('module')):
-                    rv = mod.replay(rc)
+                    if isinstance(rc, dict) and rc.get('what') == '__derive__':
+                        from mc import alphabets as _AB
+                        rv = _AB.replay_derive(dict(rc, prov=CONTEXT.get('prov')))
+                    else:
+                        rv = mod.replay(rc)
             finally:
                 CONTEXT.clear()
             confirmed = any(x['clause'] == v['clause'] for x in rv)
